@@ -1,5 +1,5 @@
 // auto-generated: "lalrpop 0.23.1"
-// sha3: 6f3fe33a294b9dffa9be37699e2898845aed700d77e592cfc8e4cb33b2a4876a
+// sha3: b07ff1c2abe997fb50a64b34b8f08bd059578b880a65dc63732d2ae9de03c298
 use crate::rt::*;
 #[allow(unused_extern_crates)]
 extern crate lalrpop_util as __lalrpop_util;
@@ -65,7 +65,9 @@ mod __parse__S {
      {
         _40L((i64, i64, i64)),
         _40R((i64, i64, i64)),
-        Q((i64, Tree, i64)),
+        Q0((i64, Tree, i64)),
+        Q1((i64, Tree, i64)),
+        Q2((i64, Tree, i64)),
         S((i64, Tree, i64)),
         X((i64, Tree, i64)),
         Y((i64, Tree, i64)),
@@ -120,7 +122,7 @@ mod __parse__S {
             let (__lookahead, __nt) = __result;
             match __nt {
                 __Nonterminal::S(__sym0) => {
-                    __result = __state5(__tokens, __lookahead, __sym0, core::marker::PhantomData::<()>)?;
+                    __result = __state4(__tokens, __lookahead, __sym0, core::marker::PhantomData::<()>)?;
                 }
                 _ => {
                     return Ok((__lookahead, __nt));
@@ -144,14 +146,14 @@ mod __parse__S {
             None => None,
         };
         match __lookahead {
-            Some((__loc1, __tok @ Tok('e', _, _, _), __loc2)) => {
+            Some((__loc1, __tok @ Tok('f', _, _, _), __loc2)) => {
                 let __sym1 = (__loc1, (__tok), __loc2);
                 __result = __state3(__tokens, __sym1, core::marker::PhantomData::<()>)?;
             }
             _ => {
                 #[allow(clippy::needless_raw_string_hashes)]
                 let __expected = alloc::vec![
-                    r###""e""###.to_string(),
+                    r###""q""###.to_string(),
                 ];
                 return Err(
                     match __lookahead {
@@ -176,6 +178,9 @@ mod __parse__S {
         loop {
             let (__lookahead, __nt) = __result;
             match __nt {
+                __Nonterminal::Q0(__sym1) => {
+                    __result = __state5(__tokens, __lookahead, __sym1, core::marker::PhantomData::<()>)?;
+                }
                 __Nonterminal::X(__sym1) => {
                     __result = __state6(__tokens, __lookahead, __sym0, __sym1, core::marker::PhantomData::<()>)?;
                     return Ok(__result);
@@ -206,14 +211,14 @@ mod __parse__S {
             None => None,
         };
         match __lookahead {
-            Some((__loc1, __tok @ Tok('e', _, _, _), __loc2)) => {
+            Some((__loc1, __tok @ Tok('f', _, _, _), __loc2)) => {
                 let __sym1 = (__loc1, (__tok), __loc2);
-                __result = __state4(__tokens, __sym1, core::marker::PhantomData::<()>)?;
+                __result = __state3(__tokens, __sym1, core::marker::PhantomData::<()>)?;
             }
             _ => {
                 #[allow(clippy::needless_raw_string_hashes)]
                 let __expected = alloc::vec![
-                    r###""e""###.to_string(),
+                    r###""q""###.to_string(),
                 ];
                 return Err(
                     match __lookahead {
@@ -238,6 +243,9 @@ mod __parse__S {
         loop {
             let (__lookahead, __nt) = __result;
             match __nt {
+                __Nonterminal::Q0(__sym1) => {
+                    __result = __state18(__tokens, __lookahead, __sym1, core::marker::PhantomData::<()>)?;
+                }
                 __Nonterminal::X(__sym1) => {
                     __result = __state8(__tokens, __lookahead, __sym0, __sym1, core::marker::PhantomData::<()>)?;
                     return Ok(__result);
@@ -270,7 +278,7 @@ mod __parse__S {
         match __lookahead {
             Some((__loc1, __tok @ Tok('f', _, _, _), __loc2)) => {
                 let __sym1 = (__loc1, (__tok), __loc2);
-                __result = __state13(__tokens, __sym1, core::marker::PhantomData::<()>)?;
+                __result = __state15(__tokens, __sym1, core::marker::PhantomData::<()>)?;
             }
             _ => {
                 #[allow(clippy::needless_raw_string_hashes)]
@@ -300,9 +308,12 @@ mod __parse__S {
         loop {
             let (__lookahead, __nt) = __result;
             match __nt {
-                __Nonterminal::Q(__sym1) => {
-                    __result = __state12(__tokens, __lookahead, __sym0, __sym1, core::marker::PhantomData::<()>)?;
+                __Nonterminal::Q1(__sym1) => {
+                    __result = __state13(__tokens, __lookahead, __sym0, __sym1, core::marker::PhantomData::<()>)?;
                     return Ok(__result);
+                }
+                __Nonterminal::Q2(__sym1) => {
+                    __result = __state14(__tokens, __lookahead, __sym1, core::marker::PhantomData::<()>)?;
                 }
                 _ => {
                     return Ok((__lookahead, __nt));
@@ -312,64 +323,6 @@ mod __parse__S {
     }
 
     fn __state4<
-        __TOKENS: Iterator<Item=Result<(i64, Tok, i64),__lalrpop_util::ParseError<i64, Tok, u64>>>,
-    >(
-        __tokens: &mut __TOKENS,
-        __sym0: (i64, Tok, i64),
-        _: core::marker::PhantomData<()>,
-    ) -> Result<(Option<(i64, Tok, i64)>, __Nonterminal<>), __lalrpop_util::ParseError<i64, Tok, u64>>
-    {
-        let mut __result: (Option<(i64, Tok, i64)>, __Nonterminal<>);
-        let __lookahead = match __tokens.next() {
-            Some(Ok(v)) => Some(v),
-            Some(Err(e)) => return Err(e),
-            None => None,
-        };
-        match __lookahead {
-            Some((__loc1, __tok @ Tok('f', _, _, _), __loc2)) => {
-                let __sym1 = (__loc1, (__tok), __loc2);
-                __result = __state13(__tokens, __sym1, core::marker::PhantomData::<()>)?;
-            }
-            _ => {
-                #[allow(clippy::needless_raw_string_hashes)]
-                let __expected = alloc::vec![
-                    r###""q""###.to_string(),
-                ];
-                return Err(
-                    match __lookahead {
-                        Some(__token) => {
-                            __lalrpop_util::ParseError::UnrecognizedToken {
-                                token: __token,
-                                expected: __expected,
-                            }
-                        }
-                        None => {
-                            let __location = __sym0.2.clone();
-                            __lalrpop_util::ParseError::UnrecognizedEof {
-                                location: __location,
-                                expected: __expected,
-                            }
-                        }
-                    }
-                )
-            }
-        }
-        #[allow(clippy::never_loop)]
-        loop {
-            let (__lookahead, __nt) = __result;
-            match __nt {
-                __Nonterminal::Q(__sym1) => {
-                    __result = __state16(__tokens, __lookahead, __sym0, __sym1, core::marker::PhantomData::<()>)?;
-                    return Ok(__result);
-                }
-                _ => {
-                    return Ok((__lookahead, __nt));
-                }
-            }
-        }
-    }
-
-    fn __state5<
         __TOKENS: Iterator<Item=Result<(i64, Tok, i64),__lalrpop_util::ParseError<i64, Tok, u64>>>,
     >(
         __tokens: &mut __TOKENS,
@@ -417,6 +370,48 @@ mod __parse__S {
         }
     }
 
+    fn __state5<
+        __TOKENS: Iterator<Item=Result<(i64, Tok, i64),__lalrpop_util::ParseError<i64, Tok, u64>>>,
+    >(
+        __tokens: &mut __TOKENS,
+        __lookahead: Option<(i64, Tok, i64)>,
+        __sym0: (i64, Tree, i64),
+        _: core::marker::PhantomData<()>,
+    ) -> Result<(Option<(i64, Tok, i64)>, __Nonterminal<>), __lalrpop_util::ParseError<i64, Tok, u64>>
+    {
+        let mut __result: (Option<(i64, Tok, i64)>, __Nonterminal<>);
+        match __lookahead {
+            Some((__loc1, __tok @ Tok('g', _, _, _), __loc2)) => {
+                let __sym1 = (__loc1, (__tok), __loc2);
+                __result = __state10(__tokens, __sym0, __sym1, core::marker::PhantomData::<()>)?;
+                return Ok(__result);
+            }
+            _ => {
+                #[allow(clippy::needless_raw_string_hashes)]
+                let __expected = alloc::vec![
+                    r###""r""###.to_string(),
+                ];
+                return Err(
+                    match __lookahead {
+                        Some(__token) => {
+                            __lalrpop_util::ParseError::UnrecognizedToken {
+                                token: __token,
+                                expected: __expected,
+                            }
+                        }
+                        None => {
+                            let __location = __sym0.2.clone();
+                            __lalrpop_util::ParseError::UnrecognizedEof {
+                                location: __location,
+                                expected: __expected,
+                            }
+                        }
+                    }
+                )
+            }
+        }
+    }
+
     fn __state6<
         __TOKENS: Iterator<Item=Result<(i64, Tok, i64),__lalrpop_util::ParseError<i64, Tok, u64>>>,
     >(
@@ -431,7 +426,7 @@ mod __parse__S {
         match __lookahead {
             Some((__loc1, __tok @ Tok('d', _, _, _), __loc2)) => {
                 let __sym2 = (__loc1, (__tok), __loc2);
-                __result = __state10(__tokens, __sym0, __sym1, __sym2, core::marker::PhantomData::<()>)?;
+                __result = __state11(__tokens, __sym0, __sym1, __sym2, core::marker::PhantomData::<()>)?;
                 return Ok(__result);
             }
             _ => {
@@ -474,7 +469,7 @@ mod __parse__S {
         match __lookahead {
             Some((__loc1, __tok @ Tok('c', _, _, _), __loc2)) => {
                 let __sym2 = (__loc1, (__tok), __loc2);
-                __result = __state11(__tokens, __sym0, __sym1, __sym2, core::marker::PhantomData::<()>)?;
+                __result = __state12(__tokens, __sym0, __sym1, __sym2, core::marker::PhantomData::<()>)?;
                 return Ok(__result);
             }
             _ => {
@@ -517,7 +512,7 @@ mod __parse__S {
         match __lookahead {
             Some((__loc1, __tok @ Tok('c', _, _, _), __loc2)) => {
                 let __sym2 = (__loc1, (__tok), __loc2);
-                __result = __state14(__tokens, __sym0, __sym1, __sym2, core::marker::PhantomData::<()>)?;
+                __result = __state16(__tokens, __sym0, __sym1, __sym2, core::marker::PhantomData::<()>)?;
                 return Ok(__result);
             }
             _ => {
@@ -560,7 +555,7 @@ mod __parse__S {
         match __lookahead {
             Some((__loc1, __tok @ Tok('d', _, _, _), __loc2)) => {
                 let __sym2 = (__loc1, (__tok), __loc2);
-                __result = __state15(__tokens, __sym0, __sym1, __sym2, core::marker::PhantomData::<()>)?;
+                __result = __state17(__tokens, __sym0, __sym1, __sym2, core::marker::PhantomData::<()>)?;
                 return Ok(__result);
             }
             _ => {
@@ -593,9 +588,8 @@ mod __parse__S {
         __TOKENS: Iterator<Item=Result<(i64, Tok, i64),__lalrpop_util::ParseError<i64, Tok, u64>>>,
     >(
         __tokens: &mut __TOKENS,
-        __sym0: (i64, Tok, i64),
-        __sym1: (i64, Tree, i64),
-        __sym2: (i64, Tok, i64),
+        __sym0: (i64, Tree, i64),
+        __sym1: (i64, Tok, i64),
         _: core::marker::PhantomData<()>,
     ) -> Result<(Option<(i64, Tok, i64)>, __Nonterminal<>), __lalrpop_util::ParseError<i64, Tok, u64>>
     {
@@ -606,11 +600,23 @@ mod __parse__S {
             None => None,
         };
         match __lookahead {
-            None => {
+            Some((_, Tok('d', _, _, _), _)) => {
                 let __start = __sym0.0.clone();
-                let __end = __sym2.2.clone();
-                let __nt = super::__action18::<>(__sym0, __sym1, __sym2);
-                let __nt = __Nonterminal::S((
+                let __end = __sym1.2.clone();
+                let __nt = super::__action28::<>(__sym0, __sym1);
+                let __nt = __Nonterminal::X((
+                    __start,
+                    __nt,
+                    __end,
+                ));
+                __result = (__lookahead, __nt);
+                return Ok(__result);
+            }
+            Some((_, Tok('c', _, _, _), _)) => {
+                let __start = __sym0.0.clone();
+                let __end = __sym1.2.clone();
+                let __nt = super::__action29::<>(__sym0, __sym1);
+                let __nt = __Nonterminal::Y((
                     __start,
                     __nt,
                     __end,
@@ -621,6 +627,8 @@ mod __parse__S {
             _ => {
                 #[allow(clippy::needless_raw_string_hashes)]
                 let __expected = alloc::vec![
+                    r###""c""###.to_string(),
+                    r###""d""###.to_string(),
                 ];
                 return Err(
                     match __lookahead {
@@ -631,7 +639,7 @@ mod __parse__S {
                             }
                         }
                         None => {
-                            let __location = __sym2.2.clone();
+                            let __location = __sym1.2.clone();
                             __lalrpop_util::ParseError::UnrecognizedEof {
                                 location: __location,
                                 expected: __expected,
@@ -663,7 +671,7 @@ mod __parse__S {
             None => {
                 let __start = __sym0.0.clone();
                 let __end = __sym2.2.clone();
-                let __nt = super::__action19::<>(__sym0, __sym1, __sym2);
+                let __nt = super::__action24::<>(__sym0, __sym1, __sym2);
                 let __nt = __Nonterminal::S((
                     __start,
                     __nt,
@@ -701,31 +709,24 @@ mod __parse__S {
         __TOKENS: Iterator<Item=Result<(i64, Tok, i64),__lalrpop_util::ParseError<i64, Tok, u64>>>,
     >(
         __tokens: &mut __TOKENS,
-        __lookahead: Option<(i64, Tok, i64)>,
         __sym0: (i64, Tok, i64),
         __sym1: (i64, Tree, i64),
+        __sym2: (i64, Tok, i64),
         _: core::marker::PhantomData<()>,
     ) -> Result<(Option<(i64, Tok, i64)>, __Nonterminal<>), __lalrpop_util::ParseError<i64, Tok, u64>>
     {
         let mut __result: (Option<(i64, Tok, i64)>, __Nonterminal<>);
+        let __lookahead = match __tokens.next() {
+            Some(Ok(v)) => Some(v),
+            Some(Err(e)) => return Err(e),
+            None => None,
+        };
         match __lookahead {
-            Some((_, Tok('d', _, _, _), _)) => {
+            None => {
                 let __start = __sym0.0.clone();
-                let __end = __sym1.2.clone();
-                let __nt = super::__action22::<>(__sym0, __sym1);
-                let __nt = __Nonterminal::X((
-                    __start,
-                    __nt,
-                    __end,
-                ));
-                __result = (__lookahead, __nt);
-                return Ok(__result);
-            }
-            Some((_, Tok('c', _, _, _), _)) => {
-                let __start = __sym0.0.clone();
-                let __end = __sym1.2.clone();
-                let __nt = super::__action23::<>(__sym0, __sym1);
-                let __nt = __Nonterminal::Y((
+                let __end = __sym2.2.clone();
+                let __nt = super::__action25::<>(__sym0, __sym1, __sym2);
+                let __nt = __Nonterminal::S((
                     __start,
                     __nt,
                     __end,
@@ -736,8 +737,56 @@ mod __parse__S {
             _ => {
                 #[allow(clippy::needless_raw_string_hashes)]
                 let __expected = alloc::vec![
-                    r###""c""###.to_string(),
-                    r###""d""###.to_string(),
+                ];
+                return Err(
+                    match __lookahead {
+                        Some(__token) => {
+                            __lalrpop_util::ParseError::UnrecognizedToken {
+                                token: __token,
+                                expected: __expected,
+                            }
+                        }
+                        None => {
+                            let __location = __sym2.2.clone();
+                            __lalrpop_util::ParseError::UnrecognizedEof {
+                                location: __location,
+                                expected: __expected,
+                            }
+                        }
+                    }
+                )
+            }
+        }
+    }
+
+    fn __state13<
+        __TOKENS: Iterator<Item=Result<(i64, Tok, i64),__lalrpop_util::ParseError<i64, Tok, u64>>>,
+    >(
+        __tokens: &mut __TOKENS,
+        __lookahead: Option<(i64, Tok, i64)>,
+        __sym0: (i64, Tok, i64),
+        __sym1: (i64, Tree, i64),
+        _: core::marker::PhantomData<()>,
+    ) -> Result<(Option<(i64, Tok, i64)>, __Nonterminal<>), __lalrpop_util::ParseError<i64, Tok, u64>>
+    {
+        let mut __result: (Option<(i64, Tok, i64)>, __Nonterminal<>);
+        match __lookahead {
+            Some((_, Tok('g', _, _, _), _)) => {
+                let __start = __sym0.0.clone();
+                let __end = __sym1.2.clone();
+                let __nt = super::__action21::<>(__sym0, __sym1);
+                let __nt = __Nonterminal::Q0((
+                    __start,
+                    __nt,
+                    __end,
+                ));
+                __result = (__lookahead, __nt);
+                return Ok(__result);
+            }
+            _ => {
+                #[allow(clippy::needless_raw_string_hashes)]
+                let __expected = alloc::vec![
+                    r###""r""###.to_string(),
                 ];
                 return Err(
                     match __lookahead {
@@ -760,27 +809,22 @@ mod __parse__S {
         }
     }
 
-    fn __state13<
+    fn __state14<
         __TOKENS: Iterator<Item=Result<(i64, Tok, i64),__lalrpop_util::ParseError<i64, Tok, u64>>>,
     >(
         __tokens: &mut __TOKENS,
-        __sym0: (i64, Tok, i64),
+        __lookahead: Option<(i64, Tok, i64)>,
+        __sym0: (i64, Tree, i64),
         _: core::marker::PhantomData<()>,
     ) -> Result<(Option<(i64, Tok, i64)>, __Nonterminal<>), __lalrpop_util::ParseError<i64, Tok, u64>>
     {
         let mut __result: (Option<(i64, Tok, i64)>, __Nonterminal<>);
-        let __lookahead = match __tokens.next() {
-            Some(Ok(v)) => Some(v),
-            Some(Err(e)) => return Err(e),
-            None => None,
-        };
         match __lookahead {
-            Some((_, Tok('c', _, _, _), _)) |
-            Some((_, Tok('d', _, _, _), _)) => {
+            Some((_, Tok('g', _, _, _), _)) => {
                 let __start = __sym0.0.clone();
                 let __end = __sym0.2.clone();
-                let __nt = super::__action17::<>(__sym0);
-                let __nt = __Nonterminal::Q((
+                let __nt = super::__action22::<>(__sym0);
+                let __nt = __Nonterminal::Q1((
                     __start,
                     __nt,
                     __end,
@@ -791,8 +835,7 @@ mod __parse__S {
             _ => {
                 #[allow(clippy::needless_raw_string_hashes)]
                 let __expected = alloc::vec![
-                    r###""c""###.to_string(),
-                    r###""d""###.to_string(),
+                    r###""r""###.to_string(),
                 ];
                 return Err(
                     match __lookahead {
@@ -815,67 +858,11 @@ mod __parse__S {
         }
     }
 
-    fn __state14<
-        __TOKENS: Iterator<Item=Result<(i64, Tok, i64),__lalrpop_util::ParseError<i64, Tok, u64>>>,
-    >(
-        __tokens: &mut __TOKENS,
-        __sym0: (i64, Tok, i64),
-        __sym1: (i64, Tree, i64),
-        __sym2: (i64, Tok, i64),
-        _: core::marker::PhantomData<()>,
-    ) -> Result<(Option<(i64, Tok, i64)>, __Nonterminal<>), __lalrpop_util::ParseError<i64, Tok, u64>>
-    {
-        let mut __result: (Option<(i64, Tok, i64)>, __Nonterminal<>);
-        let __lookahead = match __tokens.next() {
-            Some(Ok(v)) => Some(v),
-            Some(Err(e)) => return Err(e),
-            None => None,
-        };
-        match __lookahead {
-            None => {
-                let __start = __sym0.0.clone();
-                let __end = __sym2.2.clone();
-                let __nt = super::__action20::<>(__sym0, __sym1, __sym2);
-                let __nt = __Nonterminal::S((
-                    __start,
-                    __nt,
-                    __end,
-                ));
-                __result = (__lookahead, __nt);
-                return Ok(__result);
-            }
-            _ => {
-                #[allow(clippy::needless_raw_string_hashes)]
-                let __expected = alloc::vec![
-                ];
-                return Err(
-                    match __lookahead {
-                        Some(__token) => {
-                            __lalrpop_util::ParseError::UnrecognizedToken {
-                                token: __token,
-                                expected: __expected,
-                            }
-                        }
-                        None => {
-                            let __location = __sym2.2.clone();
-                            __lalrpop_util::ParseError::UnrecognizedEof {
-                                location: __location,
-                                expected: __expected,
-                            }
-                        }
-                    }
-                )
-            }
-        }
-    }
-
     fn __state15<
         __TOKENS: Iterator<Item=Result<(i64, Tok, i64),__lalrpop_util::ParseError<i64, Tok, u64>>>,
     >(
         __tokens: &mut __TOKENS,
         __sym0: (i64, Tok, i64),
-        __sym1: (i64, Tree, i64),
-        __sym2: (i64, Tok, i64),
         _: core::marker::PhantomData<()>,
     ) -> Result<(Option<(i64, Tok, i64)>, __Nonterminal<>), __lalrpop_util::ParseError<i64, Tok, u64>>
     {
@@ -886,11 +873,11 @@ mod __parse__S {
             None => None,
         };
         match __lookahead {
-            None => {
+            Some((_, Tok('g', _, _, _), _)) => {
                 let __start = __sym0.0.clone();
-                let __end = __sym2.2.clone();
-                let __nt = super::__action21::<>(__sym0, __sym1, __sym2);
-                let __nt = __Nonterminal::S((
+                let __end = __sym0.2.clone();
+                let __nt = super::__action23::<>(__sym0);
+                let __nt = __Nonterminal::Q2((
                     __start,
                     __nt,
                     __end,
@@ -901,6 +888,7 @@ mod __parse__S {
             _ => {
                 #[allow(clippy::needless_raw_string_hashes)]
                 let __expected = alloc::vec![
+                    r###""r""###.to_string(),
                 ];
                 return Err(
                     match __lookahead {
@@ -911,7 +899,7 @@ mod __parse__S {
                             }
                         }
                         None => {
-                            let __location = __sym2.2.clone();
+                            let __location = __sym0.2.clone();
                             __lalrpop_util::ParseError::UnrecognizedEof {
                                 location: __location,
                                 expected: __expected,
@@ -927,18 +915,172 @@ mod __parse__S {
         __TOKENS: Iterator<Item=Result<(i64, Tok, i64),__lalrpop_util::ParseError<i64, Tok, u64>>>,
     >(
         __tokens: &mut __TOKENS,
-        __lookahead: Option<(i64, Tok, i64)>,
         __sym0: (i64, Tok, i64),
         __sym1: (i64, Tree, i64),
+        __sym2: (i64, Tok, i64),
+        _: core::marker::PhantomData<()>,
+    ) -> Result<(Option<(i64, Tok, i64)>, __Nonterminal<>), __lalrpop_util::ParseError<i64, Tok, u64>>
+    {
+        let mut __result: (Option<(i64, Tok, i64)>, __Nonterminal<>);
+        let __lookahead = match __tokens.next() {
+            Some(Ok(v)) => Some(v),
+            Some(Err(e)) => return Err(e),
+            None => None,
+        };
+        match __lookahead {
+            None => {
+                let __start = __sym0.0.clone();
+                let __end = __sym2.2.clone();
+                let __nt = super::__action26::<>(__sym0, __sym1, __sym2);
+                let __nt = __Nonterminal::S((
+                    __start,
+                    __nt,
+                    __end,
+                ));
+                __result = (__lookahead, __nt);
+                return Ok(__result);
+            }
+            _ => {
+                #[allow(clippy::needless_raw_string_hashes)]
+                let __expected = alloc::vec![
+                ];
+                return Err(
+                    match __lookahead {
+                        Some(__token) => {
+                            __lalrpop_util::ParseError::UnrecognizedToken {
+                                token: __token,
+                                expected: __expected,
+                            }
+                        }
+                        None => {
+                            let __location = __sym2.2.clone();
+                            __lalrpop_util::ParseError::UnrecognizedEof {
+                                location: __location,
+                                expected: __expected,
+                            }
+                        }
+                    }
+                )
+            }
+        }
+    }
+
+    fn __state17<
+        __TOKENS: Iterator<Item=Result<(i64, Tok, i64),__lalrpop_util::ParseError<i64, Tok, u64>>>,
+    >(
+        __tokens: &mut __TOKENS,
+        __sym0: (i64, Tok, i64),
+        __sym1: (i64, Tree, i64),
+        __sym2: (i64, Tok, i64),
+        _: core::marker::PhantomData<()>,
+    ) -> Result<(Option<(i64, Tok, i64)>, __Nonterminal<>), __lalrpop_util::ParseError<i64, Tok, u64>>
+    {
+        let mut __result: (Option<(i64, Tok, i64)>, __Nonterminal<>);
+        let __lookahead = match __tokens.next() {
+            Some(Ok(v)) => Some(v),
+            Some(Err(e)) => return Err(e),
+            None => None,
+        };
+        match __lookahead {
+            None => {
+                let __start = __sym0.0.clone();
+                let __end = __sym2.2.clone();
+                let __nt = super::__action27::<>(__sym0, __sym1, __sym2);
+                let __nt = __Nonterminal::S((
+                    __start,
+                    __nt,
+                    __end,
+                ));
+                __result = (__lookahead, __nt);
+                return Ok(__result);
+            }
+            _ => {
+                #[allow(clippy::needless_raw_string_hashes)]
+                let __expected = alloc::vec![
+                ];
+                return Err(
+                    match __lookahead {
+                        Some(__token) => {
+                            __lalrpop_util::ParseError::UnrecognizedToken {
+                                token: __token,
+                                expected: __expected,
+                            }
+                        }
+                        None => {
+                            let __location = __sym2.2.clone();
+                            __lalrpop_util::ParseError::UnrecognizedEof {
+                                location: __location,
+                                expected: __expected,
+                            }
+                        }
+                    }
+                )
+            }
+        }
+    }
+
+    fn __state18<
+        __TOKENS: Iterator<Item=Result<(i64, Tok, i64),__lalrpop_util::ParseError<i64, Tok, u64>>>,
+    >(
+        __tokens: &mut __TOKENS,
+        __lookahead: Option<(i64, Tok, i64)>,
+        __sym0: (i64, Tree, i64),
         _: core::marker::PhantomData<()>,
     ) -> Result<(Option<(i64, Tok, i64)>, __Nonterminal<>), __lalrpop_util::ParseError<i64, Tok, u64>>
     {
         let mut __result: (Option<(i64, Tok, i64)>, __Nonterminal<>);
         match __lookahead {
+            Some((__loc1, __tok @ Tok('g', _, _, _), __loc2)) => {
+                let __sym1 = (__loc1, (__tok), __loc2);
+                __result = __state19(__tokens, __sym0, __sym1, core::marker::PhantomData::<()>)?;
+                return Ok(__result);
+            }
+            _ => {
+                #[allow(clippy::needless_raw_string_hashes)]
+                let __expected = alloc::vec![
+                    r###""r""###.to_string(),
+                ];
+                return Err(
+                    match __lookahead {
+                        Some(__token) => {
+                            __lalrpop_util::ParseError::UnrecognizedToken {
+                                token: __token,
+                                expected: __expected,
+                            }
+                        }
+                        None => {
+                            let __location = __sym0.2.clone();
+                            __lalrpop_util::ParseError::UnrecognizedEof {
+                                location: __location,
+                                expected: __expected,
+                            }
+                        }
+                    }
+                )
+            }
+        }
+    }
+
+    fn __state19<
+        __TOKENS: Iterator<Item=Result<(i64, Tok, i64),__lalrpop_util::ParseError<i64, Tok, u64>>>,
+    >(
+        __tokens: &mut __TOKENS,
+        __sym0: (i64, Tree, i64),
+        __sym1: (i64, Tok, i64),
+        _: core::marker::PhantomData<()>,
+    ) -> Result<(Option<(i64, Tok, i64)>, __Nonterminal<>), __lalrpop_util::ParseError<i64, Tok, u64>>
+    {
+        let mut __result: (Option<(i64, Tok, i64)>, __Nonterminal<>);
+        let __lookahead = match __tokens.next() {
+            Some(Ok(v)) => Some(v),
+            Some(Err(e)) => return Err(e),
+            None => None,
+        };
+        match __lookahead {
             Some((_, Tok('c', _, _, _), _)) => {
                 let __start = __sym0.0.clone();
                 let __end = __sym1.2.clone();
-                let __nt = super::__action22::<>(__sym0, __sym1);
+                let __nt = super::__action28::<>(__sym0, __sym1);
                 let __nt = __Nonterminal::X((
                     __start,
                     __nt,
@@ -950,7 +1092,7 @@ mod __parse__S {
             Some((_, Tok('d', _, _, _), _)) => {
                 let __start = __sym0.0.clone();
                 let __end = __sym1.2.clone();
-                let __nt = super::__action23::<>(__sym0, __sym1);
+                let __nt = super::__action29::<>(__sym0, __sym1);
                 let __nt = __Nonterminal::Y((
                     __start,
                     __nt,
@@ -1054,8 +1196,8 @@ fn __action4<
 fn __action5<
 >(
     (_, l, _): (i64, i64, i64),
-    (_, c0, _): (i64, Tok, i64),
-    (_, c1, _): (i64, Tree, i64),
+    (_, c0, _): (i64, Tree, i64),
+    (_, c1, _): (i64, Tok, i64),
     (_, r, _): (i64, i64, i64),
 ) -> Tree
 {
@@ -1066,8 +1208,8 @@ fn __action5<
 fn __action6<
 >(
     (_, l, _): (i64, i64, i64),
-    (_, c0, _): (i64, Tok, i64),
-    (_, c1, _): (i64, Tree, i64),
+    (_, c0, _): (i64, Tree, i64),
+    (_, c1, _): (i64, Tok, i64),
     (_, r, _): (i64, i64, i64),
 ) -> Tree
 {
@@ -1079,14 +1221,37 @@ fn __action7<
 >(
     (_, l, _): (i64, i64, i64),
     (_, c0, _): (i64, Tok, i64),
+    (_, c1, _): (i64, Tree, i64),
     (_, r, _): (i64, i64, i64),
 ) -> Tree
 {
-    node("Q#0", l, r, vec![Tree::from(c0)])
+    node("Q0#0", l, r, vec![Tree::from(c0), Tree::from(c1)])
+}
+
+#[allow(clippy::too_many_arguments, clippy::needless_lifetimes, clippy::just_underscores_and_digits, clippy::extra_unused_type_parameters)]
+fn __action8<
+>(
+    (_, l, _): (i64, i64, i64),
+    (_, c0, _): (i64, Tree, i64),
+    (_, r, _): (i64, i64, i64),
+) -> Tree
+{
+    node("Q1#0", l, r, vec![Tree::from(c0)])
+}
+
+#[allow(clippy::too_many_arguments, clippy::needless_lifetimes, clippy::just_underscores_and_digits, clippy::extra_unused_type_parameters)]
+fn __action9<
+>(
+    (_, l, _): (i64, i64, i64),
+    (_, c0, _): (i64, Tok, i64),
+    (_, r, _): (i64, i64, i64),
+) -> Tree
+{
+    node("Q2#0", l, r, vec![Tree::from(c0)])
 }
 
 #[allow(clippy::needless_lifetimes, clippy::clone_on_copy)]
-fn __action8<
+fn __action10<
 >(
     __lookbehind: &i64,
     __lookahead: &i64,
@@ -1096,7 +1261,7 @@ fn __action8<
 }
 
 #[allow(clippy::needless_lifetimes, clippy::clone_on_copy)]
-fn __action9<
+fn __action11<
 >(
     __lookbehind: &i64,
     __lookahead: &i64,
@@ -1107,15 +1272,16 @@ fn __action9<
 
 #[allow(clippy::too_many_arguments, clippy::needless_lifetimes,
     clippy::just_underscores_and_digits, clippy::clone_on_copy, clippy::unit_arg)]
-fn __action10<
+fn __action12<
 >(
     __0: (i64, Tok, i64),
-    __1: (i64, i64, i64),
+    __1: (i64, Tree, i64),
+    __2: (i64, i64, i64),
 ) -> Tree
 {
     let __start0 = __0.0.clone();
     let __end0 = __0.0.clone();
-    let __temp0 = __action9(
+    let __temp0 = __action11(
         &__start0,
         &__end0,
     );
@@ -1124,12 +1290,57 @@ fn __action10<
         __temp0,
         __0,
         __1,
+        __2,
     )
 }
 
 #[allow(clippy::too_many_arguments, clippy::needless_lifetimes,
     clippy::just_underscores_and_digits, clippy::clone_on_copy, clippy::unit_arg)]
-fn __action11<
+fn __action13<
+>(
+    __0: (i64, Tree, i64),
+    __1: (i64, i64, i64),
+) -> Tree
+{
+    let __start0 = __0.0.clone();
+    let __end0 = __0.0.clone();
+    let __temp0 = __action11(
+        &__start0,
+        &__end0,
+    );
+    let __temp0 = (__start0, __temp0, __end0);
+    __action8(
+        __temp0,
+        __0,
+        __1,
+    )
+}
+
+#[allow(clippy::too_many_arguments, clippy::needless_lifetimes,
+    clippy::just_underscores_and_digits, clippy::clone_on_copy, clippy::unit_arg)]
+fn __action14<
+>(
+    __0: (i64, Tok, i64),
+    __1: (i64, i64, i64),
+) -> Tree
+{
+    let __start0 = __0.0.clone();
+    let __end0 = __0.0.clone();
+    let __temp0 = __action11(
+        &__start0,
+        &__end0,
+    );
+    let __temp0 = (__start0, __temp0, __end0);
+    __action9(
+        __temp0,
+        __0,
+        __1,
+    )
+}
+
+#[allow(clippy::too_many_arguments, clippy::needless_lifetimes,
+    clippy::just_underscores_and_digits, clippy::clone_on_copy, clippy::unit_arg)]
+fn __action15<
 >(
     __0: (i64, Tok, i64),
     __1: (i64, Tree, i64),
@@ -1139,7 +1350,7 @@ fn __action11<
 {
     let __start0 = __0.0.clone();
     let __end0 = __0.0.clone();
-    let __temp0 = __action9(
+    let __temp0 = __action11(
         &__start0,
         &__end0,
     );
@@ -1155,7 +1366,7 @@ fn __action11<
 
 #[allow(clippy::too_many_arguments, clippy::needless_lifetimes,
     clippy::just_underscores_and_digits, clippy::clone_on_copy, clippy::unit_arg)]
-fn __action12<
+fn __action16<
 >(
     __0: (i64, Tok, i64),
     __1: (i64, Tree, i64),
@@ -1165,7 +1376,7 @@ fn __action12<
 {
     let __start0 = __0.0.clone();
     let __end0 = __0.0.clone();
-    let __temp0 = __action9(
+    let __temp0 = __action11(
         &__start0,
         &__end0,
     );
@@ -1181,7 +1392,7 @@ fn __action12<
 
 #[allow(clippy::too_many_arguments, clippy::needless_lifetimes,
     clippy::just_underscores_and_digits, clippy::clone_on_copy, clippy::unit_arg)]
-fn __action13<
+fn __action17<
 >(
     __0: (i64, Tok, i64),
     __1: (i64, Tree, i64),
@@ -1191,7 +1402,7 @@ fn __action13<
 {
     let __start0 = __0.0.clone();
     let __end0 = __0.0.clone();
-    let __temp0 = __action9(
+    let __temp0 = __action11(
         &__start0,
         &__end0,
     );
@@ -1207,7 +1418,7 @@ fn __action13<
 
 #[allow(clippy::too_many_arguments, clippy::needless_lifetimes,
     clippy::just_underscores_and_digits, clippy::clone_on_copy, clippy::unit_arg)]
-fn __action14<
+fn __action18<
 >(
     __0: (i64, Tok, i64),
     __1: (i64, Tree, i64),
@@ -1217,7 +1428,7 @@ fn __action14<
 {
     let __start0 = __0.0.clone();
     let __end0 = __0.0.clone();
-    let __temp0 = __action9(
+    let __temp0 = __action11(
         &__start0,
         &__end0,
     );
@@ -1233,16 +1444,16 @@ fn __action14<
 
 #[allow(clippy::too_many_arguments, clippy::needless_lifetimes,
     clippy::just_underscores_and_digits, clippy::clone_on_copy, clippy::unit_arg)]
-fn __action15<
+fn __action19<
 >(
-    __0: (i64, Tok, i64),
-    __1: (i64, Tree, i64),
+    __0: (i64, Tree, i64),
+    __1: (i64, Tok, i64),
     __2: (i64, i64, i64),
 ) -> Tree
 {
     let __start0 = __0.0.clone();
     let __end0 = __0.0.clone();
-    let __temp0 = __action9(
+    let __temp0 = __action11(
         &__start0,
         &__end0,
     );
@@ -1257,16 +1468,16 @@ fn __action15<
 
 #[allow(clippy::too_many_arguments, clippy::needless_lifetimes,
     clippy::just_underscores_and_digits, clippy::clone_on_copy, clippy::unit_arg)]
-fn __action16<
+fn __action20<
 >(
-    __0: (i64, Tok, i64),
-    __1: (i64, Tree, i64),
+    __0: (i64, Tree, i64),
+    __1: (i64, Tok, i64),
     __2: (i64, i64, i64),
 ) -> Tree
 {
     let __start0 = __0.0.clone();
     let __end0 = __0.0.clone();
-    let __temp0 = __action9(
+    let __temp0 = __action11(
         &__start0,
         &__end0,
     );
@@ -1281,60 +1492,15 @@ fn __action16<
 
 #[allow(clippy::too_many_arguments, clippy::needless_lifetimes,
     clippy::just_underscores_and_digits, clippy::clone_on_copy, clippy::unit_arg)]
-fn __action17<
->(
-    __0: (i64, Tok, i64),
-) -> Tree
-{
-    let __start0 = __0.2.clone();
-    let __end0 = __0.2.clone();
-    let __temp0 = __action8(
-        &__start0,
-        &__end0,
-    );
-    let __temp0 = (__start0, __temp0, __end0);
-    __action10(
-        __0,
-        __temp0,
-    )
-}
-
-#[allow(clippy::too_many_arguments, clippy::needless_lifetimes,
-    clippy::just_underscores_and_digits, clippy::clone_on_copy, clippy::unit_arg)]
-fn __action18<
+fn __action21<
 >(
     __0: (i64, Tok, i64),
     __1: (i64, Tree, i64),
-    __2: (i64, Tok, i64),
 ) -> Tree
 {
-    let __start0 = __2.2.clone();
-    let __end0 = __2.2.clone();
-    let __temp0 = __action8(
-        &__start0,
-        &__end0,
-    );
-    let __temp0 = (__start0, __temp0, __end0);
-    __action11(
-        __0,
-        __1,
-        __2,
-        __temp0,
-    )
-}
-
-#[allow(clippy::too_many_arguments, clippy::needless_lifetimes,
-    clippy::just_underscores_and_digits, clippy::clone_on_copy, clippy::unit_arg)]
-fn __action19<
->(
-    __0: (i64, Tok, i64),
-    __1: (i64, Tree, i64),
-    __2: (i64, Tok, i64),
-) -> Tree
-{
-    let __start0 = __2.2.clone();
-    let __end0 = __2.2.clone();
-    let __temp0 = __action8(
+    let __start0 = __1.2.clone();
+    let __end0 = __1.2.clone();
+    let __temp0 = __action10(
         &__start0,
         &__end0,
     );
@@ -1342,55 +1508,6 @@ fn __action19<
     __action12(
         __0,
         __1,
-        __2,
-        __temp0,
-    )
-}
-
-#[allow(clippy::too_many_arguments, clippy::needless_lifetimes,
-    clippy::just_underscores_and_digits, clippy::clone_on_copy, clippy::unit_arg)]
-fn __action20<
->(
-    __0: (i64, Tok, i64),
-    __1: (i64, Tree, i64),
-    __2: (i64, Tok, i64),
-) -> Tree
-{
-    let __start0 = __2.2.clone();
-    let __end0 = __2.2.clone();
-    let __temp0 = __action8(
-        &__start0,
-        &__end0,
-    );
-    let __temp0 = (__start0, __temp0, __end0);
-    __action13(
-        __0,
-        __1,
-        __2,
-        __temp0,
-    )
-}
-
-#[allow(clippy::too_many_arguments, clippy::needless_lifetimes,
-    clippy::just_underscores_and_digits, clippy::clone_on_copy, clippy::unit_arg)]
-fn __action21<
->(
-    __0: (i64, Tok, i64),
-    __1: (i64, Tree, i64),
-    __2: (i64, Tok, i64),
-) -> Tree
-{
-    let __start0 = __2.2.clone();
-    let __end0 = __2.2.clone();
-    let __temp0 = __action8(
-        &__start0,
-        &__end0,
-    );
-    let __temp0 = (__start0, __temp0, __end0);
-    __action14(
-        __0,
-        __1,
-        __2,
         __temp0,
     )
 }
@@ -1399,20 +1516,18 @@ fn __action21<
     clippy::just_underscores_and_digits, clippy::clone_on_copy, clippy::unit_arg)]
 fn __action22<
 >(
-    __0: (i64, Tok, i64),
-    __1: (i64, Tree, i64),
+    __0: (i64, Tree, i64),
 ) -> Tree
 {
-    let __start0 = __1.2.clone();
-    let __end0 = __1.2.clone();
-    let __temp0 = __action8(
+    let __start0 = __0.2.clone();
+    let __end0 = __0.2.clone();
+    let __temp0 = __action10(
         &__start0,
         &__end0,
     );
     let __temp0 = (__start0, __temp0, __end0);
-    __action15(
+    __action13(
         __0,
-        __1,
         __temp0,
     )
 }
@@ -1422,17 +1537,155 @@ fn __action22<
 fn __action23<
 >(
     __0: (i64, Tok, i64),
-    __1: (i64, Tree, i64),
 ) -> Tree
 {
-    let __start0 = __1.2.clone();
-    let __end0 = __1.2.clone();
-    let __temp0 = __action8(
+    let __start0 = __0.2.clone();
+    let __end0 = __0.2.clone();
+    let __temp0 = __action10(
+        &__start0,
+        &__end0,
+    );
+    let __temp0 = (__start0, __temp0, __end0);
+    __action14(
+        __0,
+        __temp0,
+    )
+}
+
+#[allow(clippy::too_many_arguments, clippy::needless_lifetimes,
+    clippy::just_underscores_and_digits, clippy::clone_on_copy, clippy::unit_arg)]
+fn __action24<
+>(
+    __0: (i64, Tok, i64),
+    __1: (i64, Tree, i64),
+    __2: (i64, Tok, i64),
+) -> Tree
+{
+    let __start0 = __2.2.clone();
+    let __end0 = __2.2.clone();
+    let __temp0 = __action10(
+        &__start0,
+        &__end0,
+    );
+    let __temp0 = (__start0, __temp0, __end0);
+    __action15(
+        __0,
+        __1,
+        __2,
+        __temp0,
+    )
+}
+
+#[allow(clippy::too_many_arguments, clippy::needless_lifetimes,
+    clippy::just_underscores_and_digits, clippy::clone_on_copy, clippy::unit_arg)]
+fn __action25<
+>(
+    __0: (i64, Tok, i64),
+    __1: (i64, Tree, i64),
+    __2: (i64, Tok, i64),
+) -> Tree
+{
+    let __start0 = __2.2.clone();
+    let __end0 = __2.2.clone();
+    let __temp0 = __action10(
         &__start0,
         &__end0,
     );
     let __temp0 = (__start0, __temp0, __end0);
     __action16(
+        __0,
+        __1,
+        __2,
+        __temp0,
+    )
+}
+
+#[allow(clippy::too_many_arguments, clippy::needless_lifetimes,
+    clippy::just_underscores_and_digits, clippy::clone_on_copy, clippy::unit_arg)]
+fn __action26<
+>(
+    __0: (i64, Tok, i64),
+    __1: (i64, Tree, i64),
+    __2: (i64, Tok, i64),
+) -> Tree
+{
+    let __start0 = __2.2.clone();
+    let __end0 = __2.2.clone();
+    let __temp0 = __action10(
+        &__start0,
+        &__end0,
+    );
+    let __temp0 = (__start0, __temp0, __end0);
+    __action17(
+        __0,
+        __1,
+        __2,
+        __temp0,
+    )
+}
+
+#[allow(clippy::too_many_arguments, clippy::needless_lifetimes,
+    clippy::just_underscores_and_digits, clippy::clone_on_copy, clippy::unit_arg)]
+fn __action27<
+>(
+    __0: (i64, Tok, i64),
+    __1: (i64, Tree, i64),
+    __2: (i64, Tok, i64),
+) -> Tree
+{
+    let __start0 = __2.2.clone();
+    let __end0 = __2.2.clone();
+    let __temp0 = __action10(
+        &__start0,
+        &__end0,
+    );
+    let __temp0 = (__start0, __temp0, __end0);
+    __action18(
+        __0,
+        __1,
+        __2,
+        __temp0,
+    )
+}
+
+#[allow(clippy::too_many_arguments, clippy::needless_lifetimes,
+    clippy::just_underscores_and_digits, clippy::clone_on_copy, clippy::unit_arg)]
+fn __action28<
+>(
+    __0: (i64, Tree, i64),
+    __1: (i64, Tok, i64),
+) -> Tree
+{
+    let __start0 = __1.2.clone();
+    let __end0 = __1.2.clone();
+    let __temp0 = __action10(
+        &__start0,
+        &__end0,
+    );
+    let __temp0 = (__start0, __temp0, __end0);
+    __action19(
+        __0,
+        __1,
+        __temp0,
+    )
+}
+
+#[allow(clippy::too_many_arguments, clippy::needless_lifetimes,
+    clippy::just_underscores_and_digits, clippy::clone_on_copy, clippy::unit_arg)]
+fn __action29<
+>(
+    __0: (i64, Tree, i64),
+    __1: (i64, Tok, i64),
+) -> Tree
+{
+    let __start0 = __1.2.clone();
+    let __end0 = __1.2.clone();
+    let __temp0 = __action10(
+        &__start0,
+        &__end0,
+    );
+    let __temp0 = (__start0, __temp0, __end0);
+    __action20(
         __0,
         __1,
         __temp0,
